@@ -161,15 +161,12 @@ RoleOfUser(c, authid) == IF \E i \in DOMAIN c.users : c.users[i].id = authid
                          THEN (CHOOSE r \in {c.users[i] : i \in DOMAIN c.users} : r.id = authid).role
                          ELSE "anonymous"
 
-\* j = [authid, color, feats, local]; sid = the session id the router assigned
-JoinFx(S, s, j, sid) ==
-  LET attrs == IF j.local
-               THEN [authid |-> j.authid, authrole |-> "trusted", authmethod |-> "local",
-                     authprovider |-> "static", color |-> j.color]
-               ELSE [authid |-> j.authid, authrole |-> RoleOfUser(S.cfg, j.authid), authmethod |-> "ticket",
-                     authprovider |-> "static", color |-> j.color]
-      rec   == [st |-> "joined", id |-> sid, attrs |-> attrs, feats |-> Rng(j.feats), local |-> j.local,
-                stalled |-> FALSE, pend |-> <<>>, cap |-> IF j.q = 0 THEN 64 ELSE j.q]
+\* attrs = the identity the router and the authenticator assigned; sid = the session id
+\* the router assigned.  (A session that went through a handshake has a pending
+\* entry in `sess' already; it is replaced.)
+JoinRecFx(S, s, attrs, feats, local, q, sid) ==
+  LET rec   == [st |-> "joined", id |-> sid, attrs |-> attrs, feats |-> feats, local |-> local,
+                stalled |-> FALSE, pend |-> <<>>, cap |-> IF q = 0 THEN 64 ELSE q]
       S1    == [S EXCEPT !.sess = (s :> rec) @@ @,
                          !.used.sid = @ \cup {sid},
                          !.used.inv = (s :> {}) @@ @,
@@ -177,6 +174,102 @@ JoinFx(S, s, j, sid) ==
       S2    == MetaPubFx(S1, U_session_on_join,
                          [Base EXCEPT !.x = sid, !.pd = IdentPairs(S1, s)])
   IN Emit(S2, s, [Base EXCEPT !.k = "WELCOME", !.a = sid, !.d = IdentPairs(S1, s), !.t = S.now])
+
+\* the one-step attach of the routing scenarios: in-process peers are trusted,
+\* network peers authenticate with their ticket.
+\* j = [authid, color, feats, local, q]
+JoinFx(S, s, j, sid) ==
+  LET attrs == IF j.local
+               THEN [authid |-> j.authid, authrole |-> "trusted", authmethod |-> "local",
+                     authprovider |-> "static", color |-> j.color]
+               ELSE [authid |-> j.authid, authrole |-> RoleOfUser(S.cfg, j.authid), authmethod |-> "ticket",
+                     authprovider |-> "static", color |-> j.color]
+  IN JoinRecFx(S, s, attrs, Rng(j.feats), j.local, j.q, sid)
+
+\* --------------------------------------------------------------------------
+\* the handshake (C09), one action per message of the joining peer.
+\* cfg.auth = [anon, methods, lauth, crtmo]: anonymous allowed, the challenge methods
+\* an authenticator is configured for, RequireLocalAuth, the authenticators' timeout.
+\* h = [first, realm, roles, methods, authid, smuggle, color, feats, local, q]:
+\*   first   "HELLO", another message type, or "none" (the peer sends nothing)
+\*   realm   "ok" | "missing" | "empty";  roles "ok" | "none" | "unknown" | "badtype"
+\*   methods the authmethods list; "" = empty string entry, "#" = an entry that is not a string
+\*   smuggle the HELLO details also carry authrole, authprovider, authmethod and session
+\* Crypto is abstract: a response is [kind, key, ch] - kind "sig" = a signature (or the
+\* ticket) made with the key of user `key' over the challenge issued to peer `ch'
+\* ("" = the challenge of this very handshake).
+HelloTimeout == 5000
+KnownUser(S, authid) == \E i \in DOMAIN S.cfg.users : S.cfg.users[i].id = authid
+Usable(S, m)  == (m = "anonymous" /\ S.cfg.auth.anon) \/ m \in Rng(S.cfg.auth.methods)
+Offered(h)    == IF h.methods = <<>> THEN <<"anonymous">> ELSE SelectSeq(h.methods, LAMBDA m : m # "" /\ m # "#")
+ChosenMethod(S, h) == LET q == SelectSeq(Offered(h), LAMBDA m : Usable(S, m)) IN IF q = <<>> THEN "" ELSE q[1]
+
+HsRec(h, st, method, dl) ==
+  [st |-> st, id |-> 0,
+   attrs |-> [authid |-> h.authid, authrole |-> "", authmethod |-> "", authprovider |-> "", color |-> h.color],
+   feats |-> Rng(h.feats), local |-> h.local, stalled |-> FALSE, pend |-> <<>>, cap |-> IF h.q = 0 THEN 64 ELSE h.q,
+   hs |-> [method |-> method, deadline |-> dl, q |-> h.q]]
+
+\* rejected: ABORT (the reason is not part of the property), transport closed, never attached
+RejectFx(S, s, rec, abort, t) ==
+  LET S1 == [S EXCEPT !.sess = (s :> [rec EXCEPT !.st = "rejected"]) @@ @]
+      S2 == IF abort THEN Emit(S1, s, [Base EXCEPT !.k = "ABORT", !.t = t]) ELSE S1
+  IN Emit(S2, s, [Base EXCEPT !.k = "CLOSED", !.t = t])
+
+HelloFx(S, s, h, sid) ==
+  LET rej == RejectFx(S, s, HsRec(h, "rejected", "", 0), TRUE, S.now)
+      ident(authid, role, method) == [authid |-> authid, authrole |-> role, authmethod |-> method,
+                                      authprovider |-> "static", color |-> h.color]
+  IN
+  IF h.first = "none"
+  THEN [S EXCEPT !.sess = (s :> HsRec(h, "pending", "nohello", S.now + HelloTimeout)) @@ @]
+  ELSE IF h.first # "HELLO" \/ h.realm # "ok" \/ h.roles # "ok" THEN rej
+  ELSE IF h.local /\ ~S.cfg.auth.lauth
+  THEN \* in-process peers are trusted under the authid they name (documented policy)
+       JoinRecFx(S, s, ident(IF h.authid = "" THEN "RANDOM" ELSE h.authid, "trusted", "local"), Rng(h.feats), h.local, h.q, sid)
+  ELSE LET m == ChosenMethod(S, h) IN
+       IF m = "" THEN rej
+       ELSE IF m = "anonymous"
+       THEN JoinRecFx(S, s, ident("RANDOM", "anonymous", "anonymous"), Rng(h.feats), h.local, h.q, sid)
+       ELSE IF h.authid = "" THEN rej
+       ELSE IF m = "cryptosign" /\ ~KnownUser(S, h.authid) THEN rej
+       ELSE Emit([S EXCEPT !.sess = (s :> HsRec(h, "pending", m, S.now + S.cfg.auth.crtmo)) @@ @],
+                 s, [Base EXCEPT !.k = "CHALLENGE", !.e = m, !.t = S.now])
+
+Pending(S) == {s \in DOMAIN S.sess : S.sess[s].st = "pending"}
+
+\* the response is valid for the challenge issued in this very handshake
+\* (DevCryptosignReplay: the code accepts a cryptosign signature made over any challenge)
+ValidResponse(S, s, a) ==
+  LET p == S.sess[s] m == p.hs.method IN
+  /\ a.kind = "sig" /\ KnownUser(S, p.attrs.authid) /\ a.key = p.attrs.authid
+  /\ \/ m = "ticket"                     \* a ticket is a static secret: no challenge to bind to
+     \/ a.ch \in {"", s}
+     \/ (m = "cryptosign" /\ "DevCryptosignReplay" \in Deviations)
+
+\* the second message of a peer that was challenged
+AuthFx(S, s, a, sid) ==
+  LET p == S.sess[s] IN
+  IF p.hs.method # "nohello" /\ ValidResponse(S, s, a)
+  THEN JoinRecFx(S, s, [p.attrs EXCEPT !.authrole = RoleOfUser(S.cfg, p.attrs.authid), !.authmethod = p.hs.method,
+                                       !.authprovider = "static"],
+                 p.feats, p.local, p.hs.q, sid)
+  ELSE RejectFx(S, s, p, TRUE, S.now)
+
+\* the transport of a pending peer is lost
+HsDropFx(S, s) == [S EXCEPT !.sess[s].st = "rejected"]
+
+\* a rejected peer keeps sending: nothing it sends has any effect
+IntrudeFx(S, s) == S
+
+\* handshake deadlines up to S.now: authentication timeout = ABORT, no HELLO in time = closed
+RECURSIVE HsExpireFx(_)
+HsExpireFx(S) ==
+  LET due == {s \in Pending(S) : S.sess[s].hs.deadline <= S.now} IN
+  IF due = {} THEN S
+  ELSE LET s == CHOOSE x \in due : TRUE
+           p == S.sess[s]
+       IN HsExpireFx(RejectFx(S, s, p, p.hs.method # "nohello", p.hs.deadline))
 
 \* --------------------------------------------------------------------------
 \* broker
@@ -452,7 +545,7 @@ TimeFx(S, upto) ==
              THEN TimeFx(CancelCoreFx([S1 EXCEPT !.retry = Tail(@)], r.c, "killnowait", ErrCanceled), upto)
              ELSE TimeFx(S1, upto)
 
-AdvanceFx(S, ms) == TimeFx(S, S.now + ms)
+AdvanceFx(S, ms) == HsExpireFx(TimeFx(S, S.now + ms))
 
 \* a client stops / resumes reading
 StallFx(S, s)  == [S EXCEPT !.sess[s].stalled = TRUE]
@@ -704,8 +797,9 @@ MetaCallFx(S, s, req, i, hp, pick) ==
 
 \* --------------------------------------------------------------------------
 \* hcfg: sequence of [u, m, n] (topic, match policy, limit); users: sequence of [id, role]
+AuthCfg0 == [anon |-> TRUE, methods |-> <<"ticket">>, lauth |-> FALSE, crtmo |-> 60000]
 InitCfg == [strict |-> FALSE, disclose |-> FALSE, metakill |-> TRUE, hcfg |-> <<>>, users |-> <<>>,
-            authz |-> <<>>, lauthz |-> FALSE, late |-> FALSE, template |-> FALSE, closed |-> FALSE]
+            authz |-> <<>>, lauthz |-> FALSE, late |-> FALSE, template |-> FALSE, closed |-> FALSE, auth |-> AuthCfg0]
 
 \* the state of a freshly started realm with configuration c
 StateOf(c) ==
